@@ -212,7 +212,7 @@ def chunk_value(chunk, form):
 def run(ctx):
     fl = import_library()
     ctx.level = "fault_enumeration"
-    L = ctx.scale(3, 5)
+    L = ctx.scale(3, 6)
     ctx.rule = (
         f"exhaustive: every sequence over {{NaN, in range, below, above}} of length <= {L} x every split into successive calls/batches x 12 "
         "settings (lock-previous x default in {NaN, in, out of range} x lock-range) x result forms (np.float64, 0-d, 1-d array, Python float) x "
